@@ -137,9 +137,16 @@ def gen_model(rng):
                     used.add(t)
                     break
             vs = rng.sample(allobjs, min(len(allobjs), rng.randint(0, 3)))
-            add({'kind': 'trap', 'name': namer.lower(pfx), 'enterprise': ent, 'number': num, 'oid': t,
-                 'vars': vs, 'descr': ' '.join(rng.sample(WORDS, 2)) if rng.random() < 0.7 else None})
+            trap = add({'kind': 'trap', 'name': namer.lower(pfx), 'enterprise': ent, 'number': num, 'oid': t,
+                        'vars': vs, 'descr': ' '.join(rng.sample(WORDS, 2)) if rng.random() < 0.7 else None})
             m['has_trap'] = True
+            if rng.random() < 0.4:
+                # something registered below the notification: resolved through the trap's own OID
+                a = rng.randint(1, 9)
+                if t + (a,) not in used:
+                    used.add(t + (a,))
+                    add({'kind': 'node', 'name': namer.lower(pfx), 'parent': trap, 'arc': a, 'oid': t + (a,)})
+                    m['below_trap'] = True
         rng.shuffle(m['decls'])
     return mods
 
@@ -370,9 +377,21 @@ def case_pair(idx, rng, tier, res):
                     if type(o).__name__ != 'NotificationType' or tuple(o.getName()) != d['oid']:
                         res.violation('pysnmp_trap', 'SMIv%d: %s::%s is %s %r' % (
                             v, m['name'], d['name'], type(o).__name__, tuple(o.getName())), replay=replay, version=v)
+                    else:
+                        want_objs = [(c['module'], c['name'].replace('-', '_')) for c in d['vars']]
+                        try:
+                            got_objs = [(a_, b_.replace('-', '_')) for a_, b_ in o.getObjects()]
+                        except Exception as exc:
+                            got_objs = repr(exc)
+                        res.count('trap_objects_compared')
+                        if got_objs != want_objs:
+                            res.violation('pysnmp_trap_objects', 'SMIv%d: %s::%s carries %r, the text lists %r' % (
+                                v, m['name'], d['name'], got_objs, want_objs), replay=replay, version=v)
     res.sig = harness.stable_hash([[(d['kind'], d.get('role'), d.get('syntax', {}).get('type') if isinstance(d.get('syntax'), dict) else None)
                                     for d in m['decls']] for m in mods])
     res.nontrivial = any(m.get('has_table') or m.get('has_trap') for m in mods)
+    if any(m.get('below_trap') for m in mods):
+        res.count('pairs_with_a_node_below_a_trap')
     if idx % 300 == 0:
         res.sample = {'smiv1': t1[names[-1]][:900], 'smiv2': t2[names[-1]][:900]}
 
